@@ -62,6 +62,7 @@ def record_worker(seed_, n_schemas, n_values, extra):
             rd = env.d(root)
             nested = [j for j, m in enumerate(rd["ms"], 1) if m["f"] == "plain" and env.base(m["t"])["k"] == "ref"
                       and env.d(env.base(m["t"])["i"])["k"] in ("struct", "union")] if rd["k"] == "struct" else []
+            live = None
             for vi in range(n_values):
                 value = gen.gen_value(rnd, env, t)
                 skip = ()
@@ -71,10 +72,18 @@ def record_worker(seed_, n_schemas, n_values, extra):
                     value = ("struct", [value0[1][j - 1] if j in skip else y for j, y in enumerate(value[1], 1)])
                 walk = S.value_to_walk(env, t, value)
                 try:
-                    msg = P.new_message(env, mod, root)
-                    P.fill(env, msg, t, value, skip=skip)
+                    if vi % 3 == 2 and live is not None:
+                        # every third value is assigned to the message that was encoded a moment ago (holding the
+                        # previous value): the encoding follows the current value
+                        msg = live
+                        P.fill(env, msg, t, value, refill=True)
+                    else:
+                        msg = P.new_message(env, mod, root)
+                        P.fill(env, msg, t, value, skip=skip)
+                    live = None
                     obsL = msg.encode("<")
                     obsB = msg.encode(">")
+                    live = msg
                 except Exception as e:
                     out["fails"].append({"check": "enc", "what": "API/encode refused an in-range value: %s"
                                          % P.exc_text(e), "schema": env.render(), "defs": env.defs, "walk": walk})
